@@ -45,12 +45,12 @@ def run_english(c):
                 shutdownEndsWithBid=sa.get("shutdownEndsWithBid", 0), shutdownEndsNoBid=sa.get("shutdownEndsNoBid", 0),
                 shutdownEndsSurplus=sa.get("shutdownEndsSurplus", 0),
                 crossAppRewardCalc=sc.get("crossAppRewardCalc", 0), crossAppMsgs=sc.get("crossAppMsgs", 0), wrongAssetMsgs=sc.get("wrongAssetMsgs", 0),
-                lsrChanges=sc.get("lsrChanges", 0), lsrChangesMulti=sc.get("lsrChangesMulti", 0),
+                lsrChanges=sc.get("lsrChanges", 0), lsrChangesMulti=sc.get("lsrChangesMulti", 0), rewardDue=sc.get("rewardDue", 0),
                 creates=sc.get("creates", 0), deposits=sc.get("deposits", 0), withdraws=sc.get("withdraws", 0), closes=sc.get("closes", 0),
                 rewards=sc.get("rewards", 0), feeIn=sc.get("feeIn", 0), feeOut=sc.get("feeOut", 0), vaultConf=sc.get("vaultConf", 0),
                 interestPaid=sc.get("interestPaid", 0), penalties=sc.get("penalties", 0), twoApps=sc.get("twoApps", 0))
     zero = [k for k, v in need.items() if v == 0]
-    if zero:
+    if zero and not c.violations:   # vacuity only guards an all-green result: a violation on real-code states is a verdict
         raise vlib.NoVerdict("vacuous run, antecedent counters are 0: %s" % zero)
     c.samples = fam.sample_nodes(lc, {"CreateLocker", "WithdrawLocker", "CloseLocker", "VaultCreate", "DutchBid"}) + fam.sample_nodes(la, {"Block", "HookV1", "SurplusFund"})
     mcs = C["mc"] + A["mc"]
